@@ -211,8 +211,78 @@ def main():
             E2.explore(body)
             if same not in outcomes:
                 mismatch("np.asarray (unrecorded width) misses numpy's outcome", have, want, outcomes)
-    print(f"vector stores / np.fromiter / iteration: {cases} random cases each; np.asarray identity: {pairs} dtype pairs; mismatches: {bad}")
+    n_it = one_shot_iterators(rng, cases)
+    print(f"vector stores / np.fromiter / iteration: {cases} random cases each; np.asarray identity: {pairs} dtype pairs; "
+          f"one-shot iterators (all / any / list / set / fromiter / second pass, directly and behind a generator expression): {n_it} scripts; mismatches: {bad}")
     return 1 if bad else 0
+
+
+# ---------------------------------------------------------------------------------------------------------------------------------
+# one-shot iterators over a sequence of SYMBOLIC length (pyvc/values.py: Iter, pyvc/models.py: _first_deciding_position, iter_advance,
+# drop_prefix): a short script of consumers is run by CPython on `iter(values)` and by the engine on `Iter(symbolic list pinned to the values)`;
+# every result (booleans, lists, sets as membership, arrays) must be the one CPython computed -- in particular what a consumer that stops
+# early (all / any) leaves in the iterator, also when it pulled the items through a generator expression, and the empty second pass
+SCRIPTS = [
+    ["all(0 <= i < n for i in it)", "list(it)"],
+    ["any(i >= n for i in it)", "list(it)", "list(it)"],
+    ["all(it)", "list(it)"],
+    ["any(it)", "any(it)", "list(it)"],
+    ["all(i != n for i in it)", "all(i != n for i in it)", "list(it)"],
+    ["list(it)", "all(0 <= i < n for i in it)", "any(i > 0 for i in it)", "list(it)"],
+    ["any(i < 0 or i >= n for i in it)", "[i + 1 for i in it]"],
+    ["all(i >= 0 and i < n for i in it)", "[i for i in it]"],
+    ["[2 * i for i in it]", "list(it)", "all(i < 0 for i in it)"],
+    ["all((i if i < n else -1) >= 0 for i in it)", "list(it)"],
+]
+
+
+def one_shot_iterators(rng, cases):
+    import ast
+
+    from pyvc.engine import Frame
+    from pyvc.values import Iter
+
+    done = 0
+    for _ in range(max(10, cases // 4)):
+        n = rng.randint(0, 6)
+        vals = [rng.randint(-2, 7) for _ in range(rng.randint(0, 6))]
+        for script in SCRIPTS:
+            done += 1
+            real = iter(list(vals))
+            want = [eval(line, {"it": real, "n": n}) for line in script]  # noqa: S307 (fixed texts above)
+            E = engine()
+            src = PList.fresh("int", name="l")
+            E.assume(src.n == len(vals))
+            for i, x in enumerate(vals):
+                E.assume(z3.Select(src.cols[0], i) == x)
+            fr = Frame(vars=dict(it=Iter(src), n=n), globs={"all": all, "any": any, "list": list})
+            try:
+                got = [E.ev(ast.parse(line, mode="eval").body, fr) for line in script]
+            except Unsupported as e:
+                mismatch("one-shot iterator script refused", script, vals, e)
+                continue
+            s = z3.Solver()
+            s.add(*E.pc)
+            if s.check() != z3.sat:
+                mismatch("one-shot iterator: model facts are not satisfiable", script, vals)
+                continue
+            for line, g, w in zip(script, got, want):
+                if isinstance(w, bool):
+                    diff = (z3.BoolVal(g) if isinstance(g, bool) else g.z) != w
+                else:
+                    if isinstance(g, Iter):
+                        g = g.seq
+                    if g.items is not None:
+                        diff = z3.BoolVal(len(g.items) != len(w)) if len(g.items) != len(w) else z3.Or(False, *[(x.z if isinstance(x, Sym) else z3.IntVal(x)) != y for x, y in zip(g.items, w)])
+                    else:
+                        gn = g.n.z if isinstance(g.n, Sym) else g.n
+                        diff = z3.Or(gn != len(w), *[z3.Select(g.cols[0], i) != y for i, y in enumerate(w)])
+                s.push()
+                s.add(diff)
+                if s.check() != z3.unsat:
+                    mismatch("one-shot iterator", script, "on", vals, "n =", n, "at", repr(line), "CPython:", w)
+                s.pop()
+    return done
 
 
 if __name__ == "__main__":
